@@ -707,7 +707,7 @@ def gen_history_cases(seed, count, maxops=40):
             elif x < 0.40:
                 k = r.choice(['la', 'one', 'cost', 'rec', 'match', 'debug'])
                 v = {'la': r.choice([-2, 0, 1, 2, 5]), 'one': r.choice([0, 1, 1, 7]), 'cost': r.choice([0, 0, 1]), 'rec': r.choice([0, 1]),
-                     'match': r.choice([1, 2, 3, 4]), 'debug': r.choice([0, 0, 1, 2])}[k]
+                     'match': r.choice([1, 2, 3, 4, 3, 2, 0, -1, -7, 1000]), 'debug': r.choice([0, 0, 1, 2])}[k]
                 op('set %d %s %d' % (h, k, v))
             elif x < 0.78:
                 gid = defined[h] if defined[h] in (0, 1) else r.choice([0, 1])
@@ -801,6 +801,12 @@ def gen_descr_ast(r):
     cut = r.randint(0, len(decls))
     first, second = decls[:cut], decls[cut:]
     if r.random() < 0.3 and idterms: second = second + [r.choice(idterms)]     # harmless redeclaration
+    if r.random() < 0.3 and idterms:
+        # the same terminal declared with and without its code, in either order and section
+        nm, cd = r.choice(idterms)
+        extra = (nm, None)
+        if r.random() < 0.5: first = first[:] ; first.insert(r.randint(0, len(first)), extra)
+        else: second = second[:]; second.insert(r.randint(0, len(second)), extra)
     order = [('terms', first)] + [('rule', x) for x in rules]
     if second or r.random() < 0.2: order.insert(r.randint(0, len(order)), ('terms', second))
     if not first and r.random() < 0.5: order = order[1:] if len(order) > 1 else order
@@ -942,13 +948,24 @@ def gen_descr_cases(seed, count):
         def op(s):
             nonlocal n
             n += 1; c.append('op %d %s' % (n, s))
+        if r.random() < 0.3:
+            # a rejected description first (a truncated or damaged one, on another object): nothing
+            # of it may leak into the next description (static state of the description parser)
+            o2, _, _ = gen_descr_ast(r)
+            t2 = render_descr(r, o2)
+            bad = t2[:r.randint(0, len(t2))].encode('latin1') if r.random() < 0.6 else mutate_text(r, t2)
+            c.append('text 1 %s' % bad.hex())
+            op('create 2'); op('descr 2 1 %d' % r.randint(0, 1)); op('err 2')
+            if r.random() < 0.5: op('free 2')
         op('create 0'); op('descr 0 0 %d' % strict); op('err 0')
         op('create 1'); op('def 1 0')
         if mode < 0.6 and py_check(terms, rules, bool(strict)) == 0:
             ins = gen_inputs(r, twin, 2, 6)
+            one = r.choice([0, 0, 1]); cost = r.choice([0, 1])
             for h in (0, 1):
                 op('set %d rec 0' % h)
-                op('set %d one %d' % (h, 0))
+                op('set %d one %d' % (h, one))
+                if cost: op('set %d cost 1' % h)
             for toks in ins:
                 codes = ' '.join(str(twin.code(t)) for t in toks)
                 for h in (0, 1):
